@@ -1,6 +1,9 @@
 package c15
 
 import (
+	"testing/fstest"
+
+	"github.com/corazawaf/coraza/v3/verifharness/vh"
 	"fmt"
 	"math/big"
 	"math/rand"
@@ -160,6 +163,126 @@ func (r *runner) genIPMatch(rng *rand.Rand) {
 	for _, arg := range []string{"", ",", "10.0.0.0/8,", "10.0.0.0/33", "10.0.0/8", "garbage", "garbage,192.168.1.1", "::1", "::ffff:10.0.0.1", "10.0.0.1/32 , ::1/128", "1.2.3.4/0", "fe80::/10"} {
 		for _, v := range []string{"10.0.0.1", "192.168.1.1", "::1", "", "garbage", "10.0.0.1 ", "::ffff:10.0.0.1", "fe80::1", "1.2.3.4", "010.0.0.1"} {
 			r.ipCheck(arg, v, ipRef(arg, v), "net.IPNet.Contains")
+		}
+	}
+}
+
+// runIpm: @ipMatch / @ipMatchFromFile compared with the Gallina model (Operators.v ipm_*), which
+// covers the IPv4 forms; arguments or values containing ':' (IPv6 forms) stay on the
+// implementation-side oracle above and are not sent to Coq.
+func (r *runner) runIpm(file bool, arg, value string) {
+	name := "ipMatch"
+	opts := plugintypes.OperatorOptions{Arguments: arg, Memoizer: r.mz()}
+	if file {
+		name = "ipMatchFromFile"
+		opts = plugintypes.OperatorOptions{Arguments: "ips.data", Path: []string{"d"}, Memoizer: r.mz(),
+			Root: fstest.MapFS{"d/ips.data": &fstest.MapFile{Data: []byte(arg)}}}
+	}
+	cj := &caseJSON{Kind: "ipm", Op: name, ArgHex: hx(arg), ValueHex: hx(value)}
+	op, err := operators.Get(name, opts)
+	if err != nil {
+		r.fail("c15-ipmatch-ctor", name+" constructor returned an error: "+err.Error(), cj)
+		return
+	}
+	tx := newTx(false, nil)
+	b, ok := r.evalSafe(op, tx, value, cj)
+	tx.Close()
+	if !ok {
+		return
+	}
+	cj.Res = boolStr(b)
+	if strings.Contains(arg, ":") || strings.Contains(value, ":") {
+		r.res.InputDistribution["ipm_ipv6_oracle_only"]++
+		return
+	}
+	r.emit(fmt.Sprintf("CIpm %s %s %s %s", vh.Bool(file), vh.HxS(arg), vh.HxS(value), vh.Bool(b)), cj, b, "ipm_"+cj.Res)
+}
+
+// genIpmModel: deterministic grid + random cases from their OWN PRNG stream (appended after all
+// earlier families so that their random draws are unchanged).
+func (r *runner) genIpmModel() {
+	cfg := r.cfg
+	rng := vh.Rng(cfg.Seed, "C15-growth2")
+	v4 := func(a uint32) string { return v4str(a) }
+	plens := []int{0, 1, 8, 15, 16, 24, 31, 32}
+	addrs := []uint32{0x0a010203, 0xc0a80180, 0xffffffff, 0, 0x7fffffff, 0x80000000}
+	for _, a := range addrs {
+		for _, n := range plens {
+			arg := fmt.Sprintf("%s/%d", v4(a), n)
+			var size uint64 = 1 << uint(32-n)
+			base := uint64(a) &^ (size - 1)
+			probes := []uint64{base, base + size - 1, uint64(a)}
+			if base > 0 {
+				probes = append(probes, base-1)
+			}
+			if base+size <= 0xffffffff {
+				probes = append(probes, base+size)
+			}
+			for _, p := range probes {
+				r.runIpm(false, arg, v4(uint32(p)))
+			}
+		}
+		r.runIpm(false, v4(a), v4(a))
+		r.runIpm(false, v4(a), v4(a^1))
+	}
+	items := []string{"10.0.0.0/8", "10.0.0/8", "10.0.0.0/33", "10.0.0.0/", "10.0.0.0/08", "10.0.0.0/008", "010.0.0.1", "10.0.0.01/32", "10.0.0.1/32/1", "garbage", "",
+		"1.2.3.4.5", "256.1.1.1", ".1.2.3", "1..2.3", "1.2.3.", "1.2.3", "1.2.3.4 /8", "1.2.3.4/ 8", "\t10.0.0.0/8\n", "10.0.0.0/+8", "10.0.0.0/8x", "0.0.0.0/0",
+		"255.255.255.255", "1%2.3.4", "1.2.3.4%eth0", "10.0.0.0/99999999999999999999", "192.168.1.1", "/8", "10", "10/8", "\xc2\xa010.1.0.0/16\xc2\xa0", "10.0.0.0\\8", "00.0.0.0/0", "0.0.0.0/00"}
+	values := []string{"10.0.0.1", "10.255.255.255", "11.0.0.0", "9.255.255.255", "192.168.1.1", "1.2.3.4", "10.0.0.1 ", " 10.0.0.1", "010.0.0.1", "10.0.0.01", "10.0.0.1.",
+		"10.0.0", "", "garbage", "10.0.0.256", "1e1.0.0.1", "10.0.0.1/32", "1.2.3.4%eth0", "10.1.2.3", "0.0.0.0", "255.255.255.255", "10.0.0.1\n", "10,0.0.1", "0010.0.0.1", "10.0.0.1\x00"}
+	for i, it := range items {
+		for j, v := range values {
+			if cfg.Thorough() || (i+j)%2 == 0 {
+				r.runIpm(false, it, v)
+			}
+		}
+		r.runIpm(false, "garbage, "+it+" ,172.16.0.0/12", "172.16.5.5")
+		r.runIpm(false, " "+it+" , 10.1.0.0/16", "10.1.2.3")
+	}
+	mkItem := func() string {
+		a := rng.Uint32()
+		if rng.Intn(3) == 0 {
+			a = []uint32{0x0a000000, 0xc0a80000, 0xac100000}[rng.Intn(3)] | uint32(rng.Intn(1<<16))
+		}
+		it := v4(a)
+		if rng.Intn(4) > 0 {
+			it += fmt.Sprintf("/%d", []int{0, 4, 8, 12, 16, 20, 24, 28, 30, 31, 32, 33}[rng.Intn(12)])
+		}
+		if rng.Intn(8) == 0 {
+			it = pick(rng, items)
+		}
+		return pick(rng, []string{"", "", " ", "\t"}) + it + pick(rng, []string{"", "", " "})
+	}
+	for i := 0; i < cfg.Pick(500, 10000); i++ {
+		n := 1 + rng.Intn(4)
+		its := make([]string, n)
+		for j := range its {
+			its[j] = mkItem()
+		}
+		arg := strings.Join(its, ",")
+		v := v4(rng.Uint32())
+		switch rng.Intn(4) {
+		case 0: // an address inside / just outside one of the listed blocks
+			f := strings.TrimSpace(its[rng.Intn(n)])
+			if ip, nw, err := net.ParseCIDR(f); err == nil && ip.To4() != nil {
+				ones, _ := nw.Mask.Size()
+				b4 := nw.IP.To4()
+				base := uint64(b4[0])<<24 | uint64(b4[1])<<16 | uint64(b4[2])<<8 | uint64(b4[3])
+				size := uint64(1) << uint(32-ones)
+				p := []uint64{base, base + size - 1, base + size, base - 1}[rng.Intn(4)]
+				v = v4(uint32(p))
+			}
+		case 1:
+			v = pick(rng, values)
+		}
+		r.runIpm(false, arg, v)
+	}
+	// @ipMatchFromFile: one item per line, comments, blank lines, CRLF, indentation
+	files := []string{"10.0.0.0/8\n192.168.1.1\n", "# list\r\n10.0.0.0/8\r\n\r\n  172.16.0.0/12  \r\n", "10.0.0.0/8", "#10.0.0.0/8\n11.0.0.0/8", "", "garbage\n10.1.2.3\n",
+		"10.0.0.0/8,11.0.0.0/8\n", " # c\n\t12.0.0.0/8"}
+	for _, f := range files {
+		for _, v := range []string{"10.1.2.3", "11.1.2.3", "192.168.1.1", "172.16.9.9", "12.0.0.1", "", "garbage"} {
+			r.runIpm(true, f, v)
 		}
 	}
 }
